@@ -93,7 +93,7 @@ def _dummy_built():
 def run(prop: str, tier: str, seed: int) -> int:
     t0 = time.time()
     q = tier == "quick"
-    core_specs = gen.family_R(seed, 14 if q else 250) + gen.family_A(seed + 1, 9 if q else 90)
+    core_specs = gen.family_R(seed, 14 if q else 62) + gen.family_A(seed + 1, 9 if q else 22)
     units: List[tuple] = []
     for sp in core_specs:
         for eng in ("sync", "async"):
@@ -101,20 +101,20 @@ def run(prop: str, tier: str, seed: int) -> int:
                                    "tlc_workers": 2, "walks": (0, 0), "max_states": 100 if q else 10 ** 8,
                                    "with_batch": sp.family == "R", "with_burst": sp.family == "A"}))
     # bursts on the async engine, trace-validated
-    walk_specs = gen.family_R(seed + 2, 6 if q else 60)
+    walk_specs = gen.family_R(seed + 2, 6 if q else 20)
     for sp in walk_specs:
         sp.config["maxIterations"] = 1000
     units.append(("core", {"specs": walk_specs, "engine": "async", "props": [prop], "seed": seed, "gvals": ("T", "F"),
-                           "mc": False, "tlc_workers": 2, "walks": (12 if q else 120, 20), "burst_walks": True}))
-    sspecs = gen.family_X(seed, 9 if q else 90, race=True) + gen.family_V(seed + 1, 6 if q else 60)
+                           "mc": False, "tlc_workers": 2, "walks": (12 if q else 30, 20), "burst_walks": True}))
+    sspecs = gen.family_X(seed, 9 if q else 22, race=True) + gen.family_V(seed + 1, 6 if q else 20)
     for sp in sspecs:
-        units.append(("sched", {"specs": [sp], "maxnow": 200 if q else 320, "waits": (30,) if q else (20, 45),
+        units.append(("sched", {"specs": [sp], "maxnow": 200 if q else 80, "waits": (30,) if q else (20, 45),
                                 "depth": 6 if q else 8, "tlc_workers": 2, "prop": prop}))
     import concurrent.futures as cf
 
     with cf.ProcessPoolExecutor(max_workers=NPROC) as ex:
         futs = [ex.submit(_core_unit if k == "core" else _sched_unit, a) for k, a in units]
-        tviol, tstats, terrs = thread_part(seed, 60 if q else 600)
+        tviol, tstats, terrs = thread_part(seed, 60 if q else 150)
         results = [(units[i][0], f.result()) for i, f in enumerate(futs)]
     cov: Dict[str, Any] = {"states": tstats["flag_states"], "transitions": tstats["flag_transitions"], "core_edges_replayed": 0,
                            "sched_edges_replayed": 0, "trace_steps_validated": 0, "divergences": 0, "machines": 0,
